@@ -343,3 +343,35 @@ theorem C01_status_path_independent {c0 : Contract} (rb : Nat) (hf : Fresh c0) (
   exact ⟨c₁, c₂, hr₁, hr₂, by rw [hs₁, hs₂, hsame]⟩
 
 end Hostd.Chain
+
+namespace Hostd.Chain
+
+theorem finalStk_append (ops : List HOp) (op : HOp) : ∀ stk, finalStk stk (ops ++ [op]) = nextStk (finalStk stk ops) op := by
+  induction ops with
+  | nil => intro stk; rfl
+  | cons o rest ih => intro stk; simp only [List.cons_append, finalStk]; exact ih _
+
+theorem WFops_append {c0 : Contract} (ops : List HOp) (op : HOp) : ∀ stk, WFops c0 stk ops →
+    wfStep c0 (finalStk stk ops) op → WFops c0 stk (ops ++ [op]) := by
+  induction ops with
+  | nil => intro stk _ h; exact ⟨h, trivial⟩
+  | cons o rest ih =>
+    intro stk hw h
+    exact ⟨hw.1, ih _ hw.2 h⟩
+
+/-- **Closing the loop.**  After any well-formed history that leaves the contract active on the best chain, a next
+block carrying the storage proof the host offers (`C06_proof_offered_after_any_history`) is a well-formed
+continuation, and processing it ends the contract successful. -/
+theorem C06_offered_proof_mined_ends_successful {c0 : Contract} (rb : Nat) (hf : Fresh c0) (ops : List HOp)
+    (hwf : WFops c0 [] ops) (hact : specStatus (finalStk [] ops) = .active) (h : Nat) :
+    WFops c0 [] (ops ++ [.apply h [.succ]]) ∧
+    ∃ c', runH rb c0 (ops ++ [.apply h [.succ]]) = .ok c' ∧ c'.status = .successful := by
+  obtain ⟨_, X', _, hspec, _, _⟩ := C01_best_chain_fresh rb hf ops hwf
+  obtain ⟨hst, _⟩ := specTop_status hf _ X' (finalStk_wf rb hf ops hwf) hspec
+  have hv : evsValid X' [.succ] = true := by simp [evsValid, evValid, hst.trans hact]
+  have hwf' : WFops c0 [] (ops ++ [.apply h [.succ]]) := WFops_append ops _ [] hwf ⟨X', hspec, hv⟩
+  refine ⟨hwf', C06_ends_successful rb hf _ hwf' ?_⟩
+  rw [finalStk_append]
+  simp [nextStk, onChain]
+
+end Hostd.Chain
